@@ -104,6 +104,9 @@ pub struct Sim {
     pub last_resp: Option<Response>,
     pub last_err: String,
     pub tx_snap: Option<(MockStorage, bool)>,
+    /// migration stream: 1 = 0.4.18 layout, 2 = 0.4.20, 3 = 1.0.0, 4 = current
+    pub mlayout: u8,
+    pub msnap_layout: u8,
 }
 
 fn s_status(s: &milky_way::staking::BatchStatus) -> &'static str {
@@ -231,6 +234,8 @@ impl Sim {
             last_resp: None,
             last_err: String::new(),
             tx_snap: None,
+            mlayout: 0,
+            msnap_layout: 0,
         }
     }
     fn emit(&mut self, s: String) {
@@ -390,6 +395,204 @@ impl Sim {
             self.emit(format!("st.wait {} {} {}", k, s_coin(&w.amount), hs(&w.receiver)));
         }
         self.emit(format!("st.ver {} {}", hs(&ver.contract), hs(&ver.version)));
+    }
+
+    fn p_lpkts(t: &str) -> Vec<(u64, u128, staking::state::ibc::PacketLifecycleStatus)> {
+        use staking::state::ibc::PacketLifecycleStatus as P;
+        p_list(t, |x| {
+            let v: Vec<&str> = x.split('/').collect();
+            (
+                p_u64(v[0]),
+                p_u128(v[1]),
+                match v[2] {
+                    "sent" => P::Sent,
+                    "ack_success" => P::AckSuccess,
+                    "ack_failure" => P::AckFailure,
+                    _ => P::TimedOut,
+                },
+            )
+        })
+    }
+    fn p_lwaits(t: &str) -> Vec<(u64, u128)> {
+        p_list(t, |x| {
+            let v: Vec<&str> = x.split('/').collect();
+            (p_u64(v[0]), p_u128(v[1]))
+        })
+    }
+
+    /// Builds a pre-upgrade store with the repository's own legacy record types.
+    pub fn setup_legacy(&mut self, t: &[&str]) {
+        use staking::migrations::states::{v0_4_18, v0_4_20, v1_0_0};
+        self.deps = new_deps();
+        let a = |x: &str| Addr::unchecked(unhex(x));
+        let al = |x: &str| p_list(x, |y| Addr::unchecked(unhex(y)));
+        let (pk, wt);
+        match t[0] {
+            "leg0418" => {
+                let c = v0_4_18::Config {
+                    native_token_denom: unhex(t[1]),
+                    liquid_stake_token_denom: unhex(t[2]),
+                    treasury_address: a(t[3]),
+                    operators: p_opt(t[4], al),
+                    monitors: p_opt(t[5], al),
+                    validators: al(t[6]),
+                    batch_period: p_u64(t[7]),
+                    unbonding_period: p_u64(t[8]),
+                    protocol_fee_config: v0_4_18::ProtocolFeeConfig { dao_treasury_fee: Uint128::new(p_u128(t[9])) },
+                    multisig_address_config: v0_4_18::MultisigAddressConfig { staker_address: a(t[10]), reward_collector_address: a(t[11]) },
+                    minimum_liquid_stake_amount: Uint128::new(p_u128(t[12])),
+                    ibc_channel_id: unhex(t[13]),
+                    stopped: t[14] == "1",
+                    oracle_contract_address: p_opt(t[15], a),
+                    oracle_contract_address_v2: p_opt(t[16], a),
+                    oracle_address: p_opt(t[17], a),
+                };
+                v0_4_18::CONFIG.save(&mut self.deps.storage, &c).unwrap();
+                pk = t[18];
+                wt = t[19];
+                self.mlayout = 1;
+            }
+            "leg0420" => {
+                let c = v0_4_20::Config {
+                    native_token_denom: unhex(t[1]),
+                    liquid_stake_token_denom: unhex(t[2]),
+                    treasury_address: a(t[3]),
+                    monitors: p_opt(t[4], al),
+                    validators: al(t[5]),
+                    batch_period: p_u64(t[6]),
+                    unbonding_period: p_u64(t[7]),
+                    protocol_fee_config: v0_4_18::ProtocolFeeConfig { dao_treasury_fee: Uint128::new(p_u128(t[8])) },
+                    multisig_address_config: v0_4_18::MultisigAddressConfig { staker_address: a(t[9]), reward_collector_address: a(t[10]) },
+                    minimum_liquid_stake_amount: Uint128::new(p_u128(t[11])),
+                    ibc_channel_id: unhex(t[12]),
+                    stopped: t[13] == "1",
+                    oracle_address: p_opt(t[14], a),
+                    send_fees_to_treasury: t[15] == "1",
+                };
+                v0_4_20::CONFIG.save(&mut self.deps.storage, &c).unwrap();
+                pk = t[16];
+                wt = t[17];
+                self.mlayout = 2;
+            }
+            _ => {
+                let n = p_rec(t[1]);
+                let p = p_rec(t[2]);
+                let f = p_rec(t[3]);
+                let c = staking::state::Config {
+                    native_chain_config: staking::state::NativeChainConfig {
+                        account_address_prefix: unhex(n[0]),
+                        validator_address_prefix: unhex(n[1]),
+                        token_denom: unhex(n[2]),
+                        validators: al(n[3]),
+                        unbonding_period: p_u64(n[4]),
+                        staker_address: a(n[5]),
+                        reward_collector_address: a(n[6]),
+                    },
+                    protocol_chain_config: staking::state::ProtocolChainConfig {
+                        account_address_prefix: unhex(p[0]),
+                        ibc_token_denom: unhex(p[1]),
+                        ibc_channel_id: unhex(p[2]),
+                        minimum_liquid_stake_amount: Uint128::new(p_u128(p[3])),
+                        oracle_address: p_opt(p[4], a),
+                    },
+                    protocol_fee_config: staking::state::ProtocolFeeConfig {
+                        dao_treasury_fee: Uint128::new(p_u128(f[0])),
+                        treasury_address: p_opt(f[1], a),
+                    },
+                    liquid_stake_token_denom: unhex(t[4]),
+                    monitors: al(t[5]),
+                    batch_period: p_u64(t[6]),
+                    stopped: t[7] == "1",
+                };
+                staking::state::CONFIG.save(&mut self.deps.storage, &c).unwrap();
+                pk = t[8];
+                wt = t[9];
+                self.mlayout = 3;
+            }
+        }
+        for (seq, amount, status) in Self::p_lpkts(pk) {
+            v1_0_0::INFLIGHT_PACKETS.save(&mut self.deps.storage, seq, &v1_0_0::IBCTransfer { sequence: seq, amount, status }).unwrap();
+        }
+        for (id, amount) in Self::p_lwaits(wt) {
+            v1_0_0::IBC_WAITING_FOR_REPLY.save(&mut self.deps.storage, id, &v1_0_0::IbcWaitingForReply { amount }).unwrap();
+        }
+        // unrelated records that no migration may touch
+        let st = staking::state::State {
+            total_native_token: Uint128::new(777),
+            total_liquid_stake_token: Uint128::new(555),
+            pending_owner: None,
+            owner_transfer_min_time: None,
+            total_reward_amount: Uint128::new(11),
+            rate: Uint128::new(1),
+            total_fees: Uint128::new(3),
+            ibc_id_counter: 0,
+        };
+        staking::state::STATE.save(&mut self.deps.storage, &st).unwrap();
+        staking::state::PENDING_BATCH_ID.save(&mut self.deps.storage, &2).unwrap();
+        staking::state::BATCHES.save(&mut self.deps.storage, 2, &milky_way::staking::Batch::new(2, Uint128::new(9), 1234)).unwrap();
+        self.deps.storage.set(b"unrelated", b"data");
+        cw2::set_contract_version(&mut self.deps.storage, "staking", "0.0.0").unwrap();
+        self.inst = false;
+    }
+
+    pub fn dump_migrated(&mut self) {
+        use staking::migrations::states::{v0_4_18, v0_4_20, v1_0_0};
+        let ver = cw2::get_contract_version(&self.deps.storage).unwrap();
+        self.emit(format!("mg.ver {} {}", hs(&ver.contract), hs(&ver.version)));
+        let oa = |o: &Option<Addr>| s_opt(o, |a| hs(a.as_str()));
+        let la = |l: &Vec<Addr>| s_list(l, |a| hs(a.as_str()));
+        match self.mlayout {
+            1 => {
+                let c = v0_4_18::CONFIG.load(&self.deps.storage).unwrap();
+                self.emit(format!(
+                    "mg.cfg0418 {} {} {} {} {} {} {} {} {} {} {} {} {} {} {} {} {}",
+                    hs(&c.native_token_denom), hs(&c.liquid_stake_token_denom), hs(c.treasury_address.as_str()),
+                    s_opt(&c.operators, la), s_opt(&c.monitors, la), la(&c.validators), c.batch_period, c.unbonding_period,
+                    c.protocol_fee_config.dao_treasury_fee.u128(), hs(c.multisig_address_config.staker_address.as_str()),
+                    hs(c.multisig_address_config.reward_collector_address.as_str()), c.minimum_liquid_stake_amount.u128(),
+                    hs(&c.ibc_channel_id), s_bool(c.stopped), oa(&c.oracle_contract_address), oa(&c.oracle_contract_address_v2), oa(&c.oracle_address)
+                ));
+            }
+            2 => {
+                let c = v0_4_20::CONFIG.load(&self.deps.storage).unwrap();
+                self.emit(format!(
+                    "mg.cfg0420 {} {} {} {} {} {} {} {} {} {} {} {} {} {} {}",
+                    hs(&c.native_token_denom), hs(&c.liquid_stake_token_denom), hs(c.treasury_address.as_str()),
+                    s_opt(&c.monitors, la), la(&c.validators), c.batch_period, c.unbonding_period,
+                    c.protocol_fee_config.dao_treasury_fee.u128(), hs(c.multisig_address_config.staker_address.as_str()),
+                    hs(c.multisig_address_config.reward_collector_address.as_str()), c.minimum_liquid_stake_amount.u128(),
+                    hs(&c.ibc_channel_id), s_bool(c.stopped), oa(&c.oracle_address), s_bool(c.send_fees_to_treasury)
+                ));
+            }
+            _ => {
+                let c = staking::state::CONFIG.load(&self.deps.storage).unwrap();
+                self.dump_config(&c, "mg.");
+            }
+        }
+        if self.mlayout == 4 {
+            let pk: Vec<_> = staking::state::INFLIGHT_PACKETS.range(&self.deps.storage, None, None, Order::Ascending).map(|r| r.unwrap()).collect();
+            for (k, p) in pk {
+                self.emit(format!("mg.pkt {} {} {} {} {}", k, p.sequence, s_coin(&p.amount), hs(&p.receiver), s_pstatus(&p.status)));
+            }
+            let wq: Vec<_> = staking::state::IBC_WAITING_FOR_REPLY.range(&self.deps.storage, None, None, Order::Ascending).map(|r| r.unwrap()).collect();
+            for (k, w) in wq {
+                self.emit(format!("mg.wait {} {} {}", k, s_coin(&w.amount), hs(&w.receiver)));
+            }
+        } else {
+            let pk: Vec<_> = v1_0_0::INFLIGHT_PACKETS.range(&self.deps.storage, None, None, Order::Ascending).map(|r| r.unwrap()).collect();
+            for (k, p) in pk {
+                self.emit(format!("mg.lpkt {} {} {} {}", k, p.sequence, p.amount, s_pstatus(&p.status)));
+            }
+            let wq: Vec<_> = v1_0_0::IBC_WAITING_FOR_REPLY.range(&self.deps.storage, None, None, Order::Ascending).map(|r| r.unwrap()).collect();
+            for (k, w) in wq {
+                self.emit(format!("mg.lwait {} {}", k, w.amount));
+            }
+        }
+        // the unrelated records
+        let st = staking::state::STATE.load(&self.deps.storage).unwrap();
+        let pb = staking::state::PENDING_BATCH_ID.load(&self.deps.storage).unwrap();
+        let un = self.deps.storage.get(b"unrelated").map(|v| hex(&v)).unwrap_or("-".to_string());
+        self.emit(format!("mg.rest {} {} {} {} {}", st.total_native_token.u128(), st.total_liquid_stake_token.u128(), st.total_fees.u128(), pb, un));
     }
 
     pub fn dump_tstore(&mut self) {
@@ -750,6 +953,79 @@ impl Sim {
             "fn" => {
                 self.step += 1;
                 self.run_fn(&toks[1..]);
+            }
+            "leg0418" | "leg0420" | "leg100" => {
+                self.step += 1;
+                self.setup_legacy(&toks);
+                self.emit("res ok".to_string());
+                self.dump_migrated();
+            }
+            "tx_begin_m" => {
+                self.tx_snap = Some((clone_storage(&self.deps.storage), self.mlayout != 0 && self.mlayout % 2 == 0));
+                self.msnap_layout = self.mlayout;
+            }
+            "tx_abort_m" => {
+                if let Some((s, _)) = self.tx_snap.take() {
+                    self.deps.storage = s;
+                }
+                self.mlayout = self.msnap_layout;
+            }
+            "setver" => {
+                cw2::set_contract_version(&mut self.deps.storage, unhex(toks[1]), unhex(toks[2])).unwrap();
+            }
+            "mig" => {
+                self.step += 1;
+                use staking::msg::MigrateMsg as M;
+                let msg = match toks[1] {
+                    "v0418" => M::V0_4_18ToV0_4_20 { send_fees_to_treasury: toks[2] == "1" },
+                    "v0420" => M::V0_4_20ToV1_0_0 {
+                        native_account_address_prefix: unhex(toks[2]),
+                        native_validator_address_prefix: unhex(toks[3]),
+                        native_token_denom: unhex(toks[4]),
+                        protocol_account_address_prefix: unhex(toks[5]),
+                    },
+                    _ => M::V1_0_0ToV1_1_0 {},
+                };
+                let before: Vec<(Vec<u8>, Vec<u8>)> = self.deps.storage.range(None, None, Order::Ascending).collect();
+                let env = mk_env(0, None, &self.me);
+                let c = self.call(false, |d| staking::contract::migrate(d.as_mut(), env, msg));
+                if c == Class::Ok {
+                    self.mlayout = match toks[1] {
+                        "v0418" => 2,
+                        "v0420" => 3,
+                        _ => 4,
+                    };
+                }
+                self.emit_result();
+                // which raw storage records changed (by top-level name)
+                let after: Vec<(Vec<u8>, Vec<u8>)> = self.deps.storage.range(None, None, Order::Ascending).collect();
+                let mut names: Vec<String> = vec![];
+                let name_of = |k: &Vec<u8>| -> String {
+                    // cw-storage-plus: Item keys are the plain name; Map keys are 2-byte length + namespace + key
+                    if k.len() > 2 {
+                        let l = ((k[0] as usize) << 8) | k[1] as usize;
+                        if l > 0 && k.len() >= 2 + l && k[2..2 + l].iter().all(|b| b.is_ascii_lowercase() || *b == b'_') {
+                            return String::from_utf8_lossy(&k[2..2 + l]).into_owned();
+                        }
+                    }
+                    String::from_utf8_lossy(k).into_owned()
+                };
+                let bm: std::collections::BTreeMap<_, _> = before.into_iter().collect();
+                let am: std::collections::BTreeMap<_, _> = after.into_iter().collect();
+                for (k, v) in am.iter() {
+                    if bm.get(k) != Some(v) {
+                        names.push(name_of(k));
+                    }
+                }
+                for k in bm.keys() {
+                    if !am.contains_key(k) {
+                        names.push(name_of(k));
+                    }
+                }
+                names.sort();
+                names.dedup();
+                self.emit(format!("mg.changed {}", s_list(&names, |n| hs(n))));
+                self.dump_migrated();
             }
             "tinst" => {
                 self.step += 1;
